@@ -31,7 +31,7 @@ Print Assumptions C08_invalid_cells.
 (** a pixel that cannot be fitted yields nodata everywhere; the model is a total function (it cannot raise) *)
 Theorem C08_unfittable : forall (K : spi_consts) (Or : spi_oracles) x nd c0 c1,
   (length (filter (fun v => fleb OpsR 0 v) (filter (fun v => negb (feqb OpsR v nd)) x)) = 0%nat \/
-   k_09 K < p_zero_of x nd \/ gammafit OpsR Or K (firstn (c1 - c0) (skipn c0 x)) = None) ->
+   k_09 K < p_zero_of x nd \/ gammafit OpsR Or K (cal_window OpsR x nd c0 c1) = None) ->
   gammastd OpsR Or K x nd c0 c1 = map (fun _ => None) x.
 Proof. exact gammastd_unfittable. Qed.
 Print Assumptions C08_unfittable.
